@@ -34,6 +34,9 @@ func C17(run *mon.Run) {
 	var wg sync.WaitGroup
 	sem := make(chan struct{}, 16)
 	for pi := 0; pi < nPairs; pi++ {
+		if pi > 0 && pi <= soloWorkers {
+			wg.Wait() // the first workers run alone (see soloWorkers)
+		}
 		wg.Add(1)
 		sem <- struct{}{}
 		go func(pi int) {
